@@ -303,6 +303,11 @@ def h_type(ctx, root, force=None, seed=0, fsel=0, twin=None):
     ch = Chooser(ctx, seed, force, fsel)
     w = W()
     e = gen_type(ch, root, w, root, HOOKS)
+    if len(w.b) > 1023:
+        # the drawn value does not fit a cell (e.g. shard_descr#b with a split/merge record and two long amounts inline): no such
+        # value exists on chain either - nothing to parse
+        ctx.require(True, 'drawn value does not fit a cell: instance skipped')
+        return
     tail = ctx.bitstr('tail', 5) if root not in SELF_CONTAINED else ''
     extra_ref = SC(ORD, '1011', [])
     nrefs = len(w.r)
